@@ -141,6 +141,36 @@ def rule_a(ctx):
     okc = bool(rowres) and all(matched(r[0]) for r in rowres)
     ctx.check(okc, rid, "c-match-condition", "a row's code is produced only under native == si_code and (signal == -1 or signal == si_signo)", None,
               [{"line": r[3], "conditions": ["%s%s" % ("" if p else "!", a) for a, p in r[0]]} for r in rowres])
+    # ... and each alternative is sufficient on its own: a wildcard row needs no signal match, a specific row needs no wildcard
+    def pos(r):
+        return {a for a, p in r[0] if p}
+    wild = [r for r in rowres if A_CODE in pos(r) and A_ANY in pos(r) and A_SIG not in pos(r)]
+    spec = [r for r in rowres if A_CODE in pos(r) and A_SIG in pos(r) and A_ANY not in pos(r)]
+    ctx.check(bool(wild) and bool(spec), rid, "c-match-alternatives", "a row with signal == -1 matches on the code alone, and a row naming a signal matches when "
+              "that signal is the delivered one (`||`, each alternative sufficient)", None,
+              [{"line": r[3], "conditions": ["%s%s" % ("" if p else "!", a) for a, p in r[0]]} for r in rowres])
+    # the scan stays inside the table: an inclusive bound (`<=` against the length / one-past-the-end) reads one row too many
+    loops = []
+
+    def find_loops(n):
+        if isinstance(n, dict):
+            if n.get("kind") in ("ForStmt", "WhileStmt"):
+                loops.append(n)
+            for x in n.get("inner", []) or []:
+                find_loops(x)
+    find_loops(f)
+    bad_bounds = []
+    nb = 0
+    for lp in loops:
+        for x in lp.get("inner", []) or []:
+            x = cpaths.strip(x) if isinstance(x, dict) and x.get("kind") else x
+            if isinstance(x, dict) and x.get("kind") == "BinaryOperator" and x.get("opcode") in ("<", "<=", ">", ">=", "!="):
+                nb += 1
+                txt = cpaths.expr(x, {})
+                if x.get("opcode") in ("<=", ">=") and " - 1" not in txt and "-1" not in txt.replace("(-1 ==", ""):
+                    bad_bounds.append({"line": x.get("line"), "condition": txt})
+                break
+    ctx.check(not bad_bounds, rid, "c-scan-bound", "the table scan is bounded exclusively by the table length (%d loop condition(s) examined)" % nb, None, bad_bounds)
     ctx.check(bool(rowres), rid, "c-returns-translated", "the matched row's translated code is returned", None, [r[1] for r in res])
     unk = [r for r in res if r[2] is not None and unknown and r[2] == unknown[0] and not [a for a, p in r[0] if p]]
     ctx.check(len(unknown) == 1 and bool(unk), rid, "fallthrough-unknown", "when no row matches the result is the Unknown discriminant (%s)" % unknown, None,
